@@ -94,3 +94,26 @@ def zmin(a, b):
 
 def zmax(a, b):
     return z3.If(a > b, a, b)
+
+
+def abstract_int_text():
+    """Opt-in stub: text rendered from a SYMBOLIC int (f-string / repr / str / %d) is the
+    placeholder '<int>' instead of forcing the solver to enumerate concrete values.  Used
+    only in families where such text can only end up in exception messages."""
+    from crosshair.libimpl import builtinslib as bl
+    bl.SymbolicInt.__format__ = lambda self, fmt: "<int>"
+    bl.SymbolicInt.__repr__ = lambda self: "<int>"
+    bl.SymbolicInt.__str__ = lambda self: "<int>"
+    from crosshair.core import _PATCH_REGISTRATIONS
+    for builtin in (format, repr, str):
+        orig = _PATCH_REGISTRATIONS.get(builtin)
+        if orig is None:
+            continue
+
+        def patched(obj="", *a, _orig=orig, **kw):
+            with NoTracing():
+                if isinstance(obj, bl.SymbolicInt):
+                    return "<int>"
+            return _orig(obj, *a, **kw)
+
+        _PATCH_REGISTRATIONS[builtin] = patched
